@@ -170,14 +170,9 @@ fn line_positions(s: &str) -> Vec<(&'static str, Vec<Instruction>)> {
     v
 }
 
+/// (a string with a newline in a DEFCIRCUIT body used to be re-indented: repaired by /repo commit 0b27e6d,
+/// see known_findings.d/C07.json; this placement guards that fix)
 pub const DEFCIRCUIT_POSITION: &str = "defcircuit.body.pragma";
-/// provisional finding (NEW, to be triaged): DEFCIRCUIT re-indents every line of its body instructions,
-/// including the continuation lines of a string that contains a newline
-pub const FINDING_DEFCIRCUIT: &str = "defcircuit-body-reindents-newline-inside-string";
-
-fn is_defcircuit_newline(position: &str, s: &str) -> bool {
-    position == DEFCIRCUIT_POSITION && s.contains('\n')
-}
 
 fn nontrivial(s: &str) -> bool {
     s.chars().any(|c| matches!(c, '"' | '\\' | '\n' | '#' | ';'))
@@ -191,7 +186,7 @@ fn all_strings(is: &[Instruction]) -> Vec<String> {
 
 /// The property on one placement.  Returns the printed text (if any).
 fn check_position(o: &mut Outcome, position: &str, s: &str, instrs: &[Instruction], quoted: Option<&str>) -> Option<String> {
-    let tag = |v: Violation| if is_defcircuit_newline(position, s) { v.finding(FINDING_DEFCIRCUIT) } else { v };
+    let tag = |v: Violation| v;
     let mut program = Program::new();
     program.add_instructions(instrs.to_vec());
     let want = all_strings(&program.to_instructions());
@@ -205,7 +200,7 @@ fn check_position(o: &mut Outcome, position: &str, s: &str, instrs: &[Instructio
         }
     };
     if let Some(q) = quoted {
-        if !text.contains(q) && !is_defcircuit_newline(position, s) {
+        if !text.contains(q) {
             o.diverge(format!("{position}: printed text {text:?} does not contain the model's lexeme {q:?}"));
         }
     }
